@@ -2,11 +2,13 @@
 
 PUB, CLOSE, ATT, STOP, CONS = 0, 1, 2, 3, 4
 
-def gen_pkts(rng, n, start=1, flv=False):
+def gen_pkts(rng, n, start=1, flv=False, h265=False):
     out = []
     for i in range(n):
         if flv:   # FLV tags: media, key frame, video/audio sequence header, metadata (every tag is cached media or a header)
             k = rng.choices([1, 2, 3, 4, 5], weights=[6, 2, 1, 1, 1])[0]
+        elif h265:  # HEVC adds the VPS slot
+            k = rng.choices([0, 1, 2, 3, 4, 5], weights=[2, 6, 2, 1, 1, 1])[0]
         else:
             k = rng.choices([0, 1, 2, 3, 4], weights=[2, 6, 2, 1, 1])[0]
         out.append([start + i, k])
@@ -15,7 +17,8 @@ def gen_pkts(rng, n, start=1, flv=False):
 def rand_case(rng, variant, max_cons=3, max_pkts=12, max_len=70, with_close=True, maxq=1000, panic_p=0.15, flv_p=0.3):
     n = rng.randint(1, max_cons)
     flv = rng.random() < flv_p
-    pkts = gen_pkts(rng, rng.randint(0, max_pkts), flv=flv)
+    h265 = (not flv) and rng.random() < 0.3
+    pkts = gen_pkts(rng, rng.randint(0, max_pkts), flv=flv, h265=h265)
     stop = [rng.random() < 0.4 for _ in range(n)]
     gop = rng.random() < 0.6
     w = {PUB: 6, CLOSE: 1.2 if with_close else 0, ATT: 2.5, STOP: 1.0, CONS: 5}
@@ -30,7 +33,7 @@ def rand_case(rng, variant, max_cons=3, max_pkts=12, max_len=70, with_close=True
             k, c = sched[-1]
         sched.append([k, c])
     panic = [rng.randint(1, 4) if rng.random() < panic_p else 0 for _ in range(n)]
-    return [variant, n, maxq, gop, pkts, stop, sched, panic, flv, rng.choice([1, 1, 2, 3])]
+    return [variant, n, maxq, gop, pkts, stop, sched, panic, flv, rng.choice([1, 1, 2, 3]), h265]
 
 def drain(n, rounds=6):
     """suffix that lets every thread run to completion (fair round robin)"""
